@@ -153,10 +153,10 @@ def toTParam (x : Sexp) : Option TParamIn :=
 def toObj (x : Sexp) : Option Obj :=
   match x with
   | .list [.atom t, a] => if t = s%"notiface" then (getStr a).map .notIface else none
-  | .list [.atom t, g, tn, tps, ms] =>
+  | .list [.atom t, g, tn, ts, tps, ms] =>
     if t = s%"iface" then do
       pure (.iface (← (← tagged s%"methods" ms).mapM toMethod) (← getBool g)
-                   (← (← tagged s%"tparams" tps).mapM toTParam) (← getBool tn))
+                   (← (← tagged s%"tparams" tps).mapM toTParam) (← getBool tn) (← getStr ts))
     else none
   | _ => none
 
